@@ -101,7 +101,10 @@ let clauses_raw h (impl : string) : (string * bool) list =
                | Some _ when stack = "none" ->
                    (* after expiry only a small constant multiple of N+M further comparisons *)
                    let post = int_of_string (get ih "post") in
-                   [ ("post_expiry_work", post <= 8 * (max 0 (oe - os) + max 0 (ne - ns)) + 8) ]
+                   (* the proved bounds (c07_post_expiry_bound): Myers N+M, LCS 0, Patience 2(N+M)+1 *)
+                   let nm = max 0 (oe - os) + max 0 (ne - ns) in
+                   let bound = match alg with "M" -> nm | "L" -> 0 | _ -> (2 * nm) + 1 in
+                   [ ("post_expiry_work", post <= bound) ]
                | _ -> [])
         | "nofinish" ->
             base
